@@ -19,7 +19,7 @@ for d in seeded/*/; do
   git apply $patch
   cd /verif
   o=$(./check $pid quick 2>&1); rc=$?
-  git -C /repo checkout -q -- .
+  git -C /repo checkout -q -- . ; git -C /repo clean -fdq
   sig=$(echo "$o" | grep -E '^  signature' | head -1 | cut -c1-140)
   echo "$n $pid exit=$rc $sig" | tee -a $out
   rm -f /verif/replays/*.json
